@@ -79,6 +79,15 @@ def check_links(b, mirror, extra_objs=()):
     return fails
 
 
+def _held_elsewhere(b, st, j):
+    """the element for job j as another step's list holds it (elements of different lists compare equal when they stand for one object)"""
+    for st2 in b.spec["steps"]:
+        if st2 == st: continue
+        for x in b[st2].jobs:
+            if raw(x) is raw(b[j]): return x
+    return b[j]
+
+
 def ops_for(spec, rnd):
     """the operation alphabet: (name, live(b), mirror(m), kind)"""
     O = []
@@ -95,6 +104,9 @@ def ops_for(spec, rnd):
                       lambda b, st=st, j=j: [b[st].jobs, [b[j]]]))
             O.append((f"{st}.jobs[0]={j}", lambda b, st=st, j=j: b[st].jobs.__setitem__(0, b[j]), lambda m, key=key, j=j: m[key].__setitem__(0, j), "setitem"))
             O.append((f"{st}.jobs.remove({j})", lambda b, st=st, j=j: b[st].jobs.remove(b[j]), lambda m, key=key, j=j: m[key].remove(j), "remove-object"))
+            if len(steps) > 1:
+                O.append((f"{st}.jobs.remove({j} as held by another step)", lambda b, st=st, j=j: b[st].jobs.remove(_held_elsewhere(b, st, j)),
+                          lambda m, key=key, j=j: m[key].remove(j), "remove-element-of-another-list"))
         O.append((f"{st}.jobs.pop()", lambda b, st=st: b[st].jobs.pop(), lambda m, key=key: m[key].pop(), "pop"))
         O.append((f"{st}.jobs.pop(0)", lambda b, st=st: b[st].jobs.pop(0), lambda m, key=key: m[key].pop(0), "pop"))
         O.append((f"del {st}.jobs[0]", lambda b, st=st: b[st].jobs.__delitem__(0), lambda m, key=key: m[key].__delitem__(0), "del"))
